@@ -1,7 +1,7 @@
 #!/bin/sh
 # try_seed.sh <patch file> <checks...>: apply a seeded change to /repo, run the given checks (quick), undo.
 cd "$(dirname "$0")/.." || exit 2
-PATCH=$1; shift
+PATCH=$(realpath "$1"); shift
 git -C /repo diff --quiet || { echo "/repo working tree not clean"; exit 2; }
 git -C /repo apply "$PATCH" || { echo "patch does not apply"; exit 2; }
 for p in "$@"; do
